@@ -350,6 +350,11 @@ def run(ctx: Ctx) -> Report:
     rep = run_tree_property(ctx, __name__, SPEC)
     rep.merge(_records_report(ctx))
     rep.merge(_all_classes_report(ctx))
+    nd = rep.extra.get("counters", {}).get("not-decodable", 0)
+    if nd > 0.05 * max(rep.evaluations, 1) and not rep.failures:
+        from ..engine import HarnessError
+
+        raise HarnessError(f"generator health: {nd} instances could not be encoded/decoded: inconclusive for decoder-built instances")
     if rep.extra.get("counters", {}).get("perturbed", 0) < rep.evaluations // 4:
         from ..engine import HarnessError
 
